@@ -42,7 +42,7 @@ def damage(data, fam, a, b, c):
 
 def run(tier):
     rep = common.Report("C12", tier, level="fault_enumeration")
-    rep.set_deadline(900 if tier == "quick" else 6 * 3600)
+    rep.set_deadline(900 if tier == "quick" else 3600)
     tree = common.build_tree("asan")
     probe = tree.build_probe(os.path.join(common.VERIF, "vf/probes/nvm_probe.c"), "nvm_probe")
     mods = corpus.corpus_modules(tree, os.path.join(common.scratch(), "c12mods"))
@@ -50,7 +50,10 @@ def run(tier):
         rmods, _sk = corpus.repo_modules(tree, os.path.join(common.scratch(), "c12rmods"))
         # a spread of larger real modules (every 12th by size)
         rmods.sort(key=lambda sm: os.path.getsize(sm[1]))
-        mods += rmods[::24]
+        # every load parses the whole file, so the cost of a file grows with the square of its size: real modules up
+        # to 16 KiB (every 16th by size); larger ones are covered by the bit / truncation families of C10 / C13
+        rmods = [sm for sm in rmods if os.path.getsize(sm[1]) <= 16384]
+        mods += rmods[::16]
     lmax = 8 if tier == "quick" else 12
     jobs = []
     sizes = {}
